@@ -326,7 +326,7 @@ def _store_request(rnd, mode, case, want_valid):
             rq.update(body={'json': body}, cls='malformed', label='missing-key')
         else:
             body['merged'] = rnd.choice(NOT_NOTEBOOKS)
-            rq.update(body={'json': body}, cls='malformed', label='merged-not-notebook')
+            rq.update(body={'json': body}, cls='malformed', label='merged-not-notebook:' + ('object' if isinstance(body['merged'], dict) else 'scalar'))
     if not mode.get('out'):
         rq['cls'], rq['label'] = 'refused', 'no-output-file:' + rq['label']
     return rq
@@ -376,11 +376,12 @@ def gen_requests(rnd, mode, case):
         elif u < 0.42:
             rq = _read_request(rnd, 'merge', mode, True)
         elif u < 0.56:
-            rq = _store_request(rnd, mode, case, True)
+            # a server without output file refuses every store: ask less often there
+            rq = _store_request(rnd, mode, case, True) if mode.get('out') or rnd.random() < 0.3 else _read_request(rnd, 'diff', mode, True)
         elif u < 0.68:
             rq = _read_request(rnd, rnd.choice(['diff', 'merge']), mode, False)
         elif u < 0.78:
-            rq = _store_request(rnd, mode, case, False)
+            rq = _store_request(rnd, mode, case, False) if mode.get('out') or rnd.random() < 0.3 else _read_request(rnd, 'merge', mode, False)
         elif u < 0.86:
             rq = _other_malformed(rnd, mode)
         elif u < 0.93:
@@ -618,7 +619,11 @@ def oracle(root, case, rq, ans):
     site = (ans['sites'] or ['unknown'])[-1]
     fails = []
     if ep in ('diff', 'merge'):
-        nbs = {k: _read(work, subst(v, root), rq.get('empty_ok') and k == 'base') for k, v in rq['names'].items()}
+        try:
+            nbs = {k: _read(work, subst(v, root), rq.get('empty_ok') and k == 'base') for k, v in rq['names'].items()}
+        except Exception:
+            # only after an earlier request of the sequence damaged an input file (reported there): nothing to demand here
+            return [], 'inputs-damaged-by-earlier-request'
         try:
             if ep == 'diff':
                 from nbdime.diffing.notebooks import diff_notebooks
@@ -722,7 +727,9 @@ def judge(root, case, rq, ans):
             fails.append(('error-status-missing:' + tag, 'malformed/unreadable request %s (body %s) is answered %d'
                           % (brief(rq), _show_body(rq), status)))
         if changes:
-            fails.append(('disk-changed-on-error:' + tag, 'request %s answered %d changed the disk: %s' % (brief(rq), status, changes[:4])))
+            # 'accepted': the change is the effect of serving what had to be turned down (same root as error-status-missing)
+            fails.append(('disk-changed-on-error:' + ('accepted:' if status < 400 else '') + tag,
+                          'request %s (body %s) answered %d changed the disk: %s' % (brief(rq), _show_body(rq), status, changes[:4])))
         if ans['stopped']:
             fails.append(('close-honoured-when-not-closable' if not case['mode']['closable'] else 'disk-changed-on-error:stop:' + tag,
                           'request %s stopped the server' % brief(rq)))
@@ -814,6 +821,8 @@ def run_case(case, keep=None, history=True):
                         what.append('different effect on disk: %s' % delta(fresh['after'], ans['after'])[:3])
                     fails.append(('history-dependence:' + rq['ep'], 'request #%d %s is answered with %s when it comes after %s than when it is the first request to a fresh '
                                   'server over the same files (logged: %s)' % (k, brief(rq), '; '.join(what), [brief(r) for r in reqs[:k]], ans['sites'][-1:]), idx[k]))
+            if ans['stopped']:
+                break                  # the real server is gone after IOLoop.stop
     finally:
         shutil.rmtree(root, ignore_errors=True)
     return fails, notes, stats
